@@ -33,6 +33,7 @@ def run(ctx):
     Q.rule_space(ctx, "R4")
     Q.rule_decode_set(ctx, "R4d", m, params, sets)
     Q.rule_c1(ctx, "R4c", sets)
+    U.rule_punycode(ctx, "R6p")
     U.rule_qsl(ctx, "R4q")
     Q.rule_qsl_mappers(ctx, "R4m")
 
